@@ -53,8 +53,8 @@ ASSUMPTIONS = [
     "merged states have equal futures: the peers' behaviour depends only on outstanding tags, tag counter, parser "
     "buffer, pending responder Deferreds and transport flags, all determined by the canonical tuple",
 ]
-MIN = {"quick": {"states": 45000, "transitions": 100000, "nontrivial": 15000, "outcomes": 8},
-       "thorough": {"states": 20000, "transitions": 60000, "nontrivial": 5000, "outcomes": 8}}
+MIN = {"quick": {"states": 70000, "transitions": 130000, "nontrivial": 30000, "outcomes": 6},
+       "thorough": {"states": 70000, "transitions": 130000, "nontrivial": 30000, "outcomes": 6}}
 
 KINDS = ["ok", "later", "decl", "undecl"]
 KCODE = {k: i for i, k in enumerate(KINDS)}
